@@ -201,7 +201,7 @@ def validate_traces(ctx: Ctx, rep: Report, traces: list, tag: str, batch: int = 
     jobs = []
     for lo in range(0, len(traces), batch):
         tf = ctx.work / f"traces_{tag}_{lo}.json"
-        tf.write_text(json.dumps([{"ev": t["ev"]} for t in traces[lo:lo + batch]]))
+        tf.write_text(json.dumps([{"ev": t["ev"], "p0": t.get("p0", simkit.P0)} for t in traces[lo:lo + batch]]))
         jobs.append((lo, tf))
 
     def go(job):
@@ -283,6 +283,55 @@ def trace_direction(ctx: Ctx, rep: Report, prop: str, n: int, length: int, weigh
         rep.sample({"recorded_trace": acc[0]["ev"][:4], "verdict": "accepted"})
 
 
+def repo_tests_direction(ctx: Ctx, rep: Report, only_protocols: bool = False, tests: str = "tests/simulator",
+                         minimum: int | None = None) -> None:
+    """The repository's own tests/simulator run under a recorder (mbt/simrecorder.py); every Simulator instance
+    they create is one trace; TLC judges the bookkeeping (index, refusal, parameters per segment)."""
+    import os
+    import subprocess
+    import sys
+
+    from .. import simrecorder
+    from ..core import ROOT, repo_root
+
+    out = ctx.work / "repo_tests_raw.json"
+    env = dict(os.environ)
+    env["PYTHONPATH"] = os.pathsep.join([str(ROOT), str(repo_root() / "src")])
+    env["SIMREC_OUT"] = str(out)
+    p = subprocess.run([sys.executable, "-m", "pytest", "-q", "-p", "no:cacheprovider", "-p", "mbt.simrecorder",
+                        tests], cwd=repo_root(), env=env, capture_output=True, text=True, timeout=900)
+    if p.returncode not in (0, 1) or not out.exists():
+        raise MachineryError(f"could not run tests/simulator under the recorder (rc={p.returncode}):\n{p.stdout[-800:]}{p.stderr[-800:]}")
+    raws = json.loads(out.read_text())
+    traces, na = [], collections.Counter()
+    for r in raws:
+        t, why = simrecorder.convert(r)
+        if t is None:
+            na[why] += 1
+        elif not only_protocols or any(e["op"]["k"] in ("proto", "ptc") for e in t["ev"]):
+            traces.append(t)
+    rep.notes["repo_tests_simulators_recorded"] = len(raws)
+    rep.notes["repo_tests_not_applicable"] = dict(na)
+    rep.notes["repo_tests_pytest_exit"] = p.returncode
+    if len(traces) < ((8 if only_protocols else 20) if minimum is None else minimum):
+        raise MachineryError(f"only {len(traces)} repository test traces are applicable: {dict(na)}")
+    verdicts = validate_traces(ctx, rep, traces, "repo_tests")
+    for t, v in zip(traces, verdicts):
+        rep.evaluations += 1
+        steps = [{"op": e["op"], "raised": e["raised"]} for e in t["ev"]]
+        if nontrivial(steps):
+            rep.distinct.add("repo:" + t["test"] + json.dumps([e["op"] for e in t["ev"]], sort_keys=True))
+        if v["accepted"]:
+            rep.traces += 1
+        else:
+            j = v["matched"]
+            det = {"what": "trace", "step": j, "matched_events": j, "test": t["test"],
+                   "rejected_event": t["ev"][j] if j < len(t["ev"]) else None}
+            rep.mismatch({"trace": t["ev"][:j + 1], "p0": t["p0"], "tick": t["tick"], "test": t["test"]}, det,
+                         simkit.classify(steps, det))
+    rep.notes["repo_tests_traces_validated"] = len(traces)
+
+
 # ---- the check ------------------------------------------------------------------------------------------------
 def run(ctx: Ctx) -> int:
     import mxlpy  # noqa: F401  (before forking)
@@ -326,6 +375,7 @@ def run(ctx: Ctx) -> int:
                     "predicted_index_ticks": [[q["o"] if q["b"] == 0 else f"tau{q['b']}+{q['o']}" for q in g["times"]]
                                               for g in h[-1]["st"]["segs"]]})
     trace_direction(ctx, rep, PROP, 600 if ctx.quick else 12000, 8 if ctx.quick else 10, None, "driver")
+    repo_tests_direction(ctx, rep)
     return rep.finish()
 
 
@@ -336,6 +386,12 @@ def replay(ctx: Ctx, doc: dict) -> int:
     if "history" in scn:
         bad, _ = simkit.replay_history(scn["history"])
         print(json.dumps({"calls": [s["op"] for s in scn["history"]], "disagreement": bad}, indent=1))
+    elif "test" in scn:
+        # a trace recorded from a repository test: run that test under the recorder again, TLC judges
+        rep = Report(ctx)
+        repo_tests_direction(ctx, rep, tests=scn["test"], minimum=1)
+        bad = rep.violations[0]["detail"] if rep.violations else None
+        print(json.dumps({"test": scn["test"], "disagreement": bad}, indent=1))
     else:
         # a recorded trace: run the same calls again on the current tree and have TLC judge the new recording
         t = simkit.record_trace(scn.get("seed", "replay"), 0, None, ops=[e["op"] for e in scn["trace"]])
